@@ -1,12 +1,285 @@
-(* C03 — proofs about the model (see Properties.v for the exported statements). *)
+(* C03 — basic lemmas: dimensions, vectors, lookups, the admission decision. *)
 From Coq Require Import List ZArith Bool Lia.
 From Verif Require Import Lib.ListX C02.Model C03.Model C03.Spec.
 Import ListNotations.
 Open Scope Z_scope.
 
+(* ---------- dimensions ---------- *)
 Lemma all_dims_spec f : all_dims f = true <-> forall d, f d = true.
 Proof.
   unfold all_dims, dims. cbn [forallb]. rewrite !andb_true_iff. split.
   - intros (Hc & Hm & He & _) d. destruct d; assumption.
   - intro H. repeat split; apply H.
+Qed.
+
+Lemma all_dims_false f : all_dims f = false -> exists d, f d = false.
+Proof.
+  unfold all_dims, dims. cbn [forallb]. intro H.
+  destruct (f Cpu) eqn:Ec; [|exists Cpu; exact Ec].
+  destruct (f Mem) eqn:Em; [|exists Mem; exact Em].
+  destruct (f Ext) eqn:Ee; [|exists Ext; exact Ee].
+  discriminate H.
+Qed.
+
+Lemma forallb_false_exists {A} (f : A -> bool) l :
+  forallb f l = false -> exists x, In x l /\ f x = false.
+Proof.
+  induction l as [|x t IH]; cbn [forallb]; [discriminate|].
+  destruct (f x) eqn:E; cbn.
+  - intro H. destruct (IH H) as (y & Hy & Hf). exists y. split; [right; exact Hy|exact Hf].
+  - intros _. exists x. split; [left; reflexivity|exact E].
+Qed.
+
+Lemma any_dim_false f : any_dim f = false <-> forall d, f d = false.
+Proof.
+  unfold any_dim, dims. cbn [existsb]. rewrite !orb_false_iff. split.
+  - intros (Hc & Hm & He & _) d. destruct d; assumption.
+  - intro H. repeat split; apply H.
+Qed.
+
+Lemma vget_vmk f d : vget (vmk f) d = f d.
+Proof. destruct d; reflexivity. Qed.
+Lemma mget_mmk f d : mget (mmk f) d = f d.
+Proof. destruct d; reflexivity. Qed.
+
+Lemma vec_ext a b : (forall d, vget a d = vget b d) -> a = b.
+Proof.
+  intro H. destruct a as [a1 a2 a3], b as [b1 b2 b3].
+  pose proof (H Cpu) as H1. pose proof (H Mem) as H2. pose proof (H Ext) as H3.
+  cbn in H1, H2, H3. subst. reflexivity.
+Qed.
+
+Lemma vget_vadd a b d : vget (vadd a b) d = vget a d + vget b d.
+Proof. unfold vadd. apply vget_vmk. Qed.
+Lemma vget_vsub_clamp a b d : vget (vsub_clamp a b) d = Z.max 0 (vget a d - vget b d).
+Proof. unfold vsub_clamp. apply vget_vmk. Qed.
+Lemma vget_vmask m v d : vget (vmask m v) d = if mget m d then vget v d else 0.
+Proof. unfold vmask. apply vget_vmk. Qed.
+Lemma vget_vzero d : vget vzero d = 0.
+Proof. destruct d; reflexivity. Qed.
+
+Lemma vec_nonnegb_spec v : vec_nonnegb v = true <-> forall d, 0 <= vget v d.
+Proof.
+  unfold vec_nonnegb. rewrite all_dims_spec. split; intros H d; specialize (H d); lia.
+Qed.
+
+Lemma mask_eqb_spec a b : mask_eqb a b = true <-> forall d, mget a d = mget b d.
+Proof.
+  unfold mask_eqb. change (forallb ?f dims) with (all_dims f). rewrite all_dims_spec.
+  split; intros H d; specialize (H d).
+  - apply eqb_prop in H. exact H.
+  - rewrite H. apply eqb_reflx.
+Qed.
+
+(* ---------- setters ---------- *)
+Lemma set_usage_id q : set_usage q (q_used q) (q_npused q) = q.
+Proof. destruct q; reflexivity. Qed.
+
+(* ---------- lookups ---------- *)
+Lemma find_quota_some id qs q : find_quota id qs = Some q -> In q qs /\ q_id q = id.
+Proof.
+  induction qs as [|x t IH]; cbn [find_quota]; [discriminate|].
+  destruct (q_id x =? id) eqn:E.
+  - intro H. injection H as <-. split; [left; reflexivity|lia].
+  - intro H. destruct (IH H) as [Hi He]. split; [right; exact Hi|exact He].
+Qed.
+
+Lemma find_quota_none id qs : find_quota id qs = None -> ~ In id (map q_id qs).
+Proof.
+  induction qs as [|x t IH]; cbn [find_quota map]; [intros _ []|].
+  destruct (q_id x =? id) eqn:E; [discriminate|].
+  intros H [Hx|Ht]; [lia|exact (IH H Ht)].
+Qed.
+
+Lemma find_quota_nodup id qs q :
+  NoDup (map q_id qs) -> In q qs -> q_id q = id -> find_quota id qs = Some q.
+Proof.
+  induction qs as [|x t IH]; cbn [find_quota map]; intros Hnd Hin Hid; [destruct Hin|].
+  inversion Hnd as [|? ? Hx Ht]; subst.
+  destruct Hin as [->|Hin].
+  - rewrite Z.eqb_refl. reflexivity.
+  - destruct (q_id x =? q_id q) eqn:E.
+    + exfalso. apply Hx. apply Z.eqb_eq in E. rewrite E. apply in_map. exact Hin.
+    + apply IH; auto.
+Qed.
+
+Lemma find_pod_some id ps p : find_pod id ps = Some p -> In p ps /\ p_id p = id.
+Proof.
+  induction ps as [|x t IH]; cbn [find_pod]; [discriminate|].
+  destruct (p_id x =? id) eqn:E.
+  - intro H. injection H as <-. split; [left; reflexivity|lia].
+  - intro H. destruct (IH H) as [Hi He]. split; [right; exact Hi|exact He].
+Qed.
+
+Lemma mem_id_spec x l : mem_id x l = true <-> In x l.
+Proof.
+  unfold mem_id. rewrite existsb_exists. split.
+  - intros (y & Hy & E). apply Z.eqb_eq in E. subst. exact Hy.
+  - intro H. exists x. split; [exact H|apply Z.eqb_refl].
+Qed.
+
+(* every element of a path is a stored quota; each ancestor is the parent of the element before it *)
+Lemma path_from_in fuel qs id q : In q (path_from fuel qs id) -> In q qs.
+Proof.
+  revert id. induction fuel as [|f IH]; intros id; cbn [path_from]; [intros []|].
+  destruct (id =? 0); [intros []|].
+  destruct (find_quota id qs) as [x|] eqn:E; [|intros []].
+  intros [<-|H]; [apply (find_quota_some _ _ _ E)|exact (IH _ H)].
+Qed.
+
+Lemma path_from_head fuel qs id q t :
+  path_from fuel qs id = q :: t -> find_quota id qs = Some q /\ id <> 0.
+Proof.
+  destruct fuel as [|f]; cbn [path_from]; [discriminate|].
+  destruct (id =? 0) eqn:E0; [discriminate|].
+  destruct (find_quota id qs) as [x|]; [|discriminate].
+  intro H. injection H as -> _. split; [reflexivity|lia].
+Qed.
+
+(* every ancestor on a path is the parent of some quota of the path *)
+Lemma path_from_anc fuel qs id q t a :
+  path_from fuel qs id = q :: t -> In a t ->
+  exists c, In c qs /\ q_parent c = q_id a /\ q_parent c <> 0.
+Proof.
+  revert id q t. induction fuel as [|f IH]; intros id q t; cbn [path_from]; [discriminate|].
+  destruct (id =? 0); [discriminate|].
+  destruct (find_quota id qs) as [x|] eqn:E; [|discriminate].
+  intros H Ha. injection H as <- <-.
+  destruct (path_from f qs (q_parent x)) as [|y t'] eqn:Ep; [destruct Ha|].
+  destruct Ha as [->|Ha].
+  - destruct (path_from_head _ _ _ _ _ Ep) as [Hf Hn].
+    exists x. split; [apply (find_quota_some _ _ _ E)|].
+    split; [symmetry; apply (find_quota_some _ _ _ Hf)|exact Hn].
+  - exact (IH _ _ _ Ep Ha).
+Qed.
+
+(* ---------- the admission decision ---------- *)
+Lemma self_ok_spec q lim mreq : self_ok q lim mreq = true <-> self_within q lim mreq.
+Proof.
+  unfold self_ok, self_within. rewrite all_dims_spec.
+  split; intros H d; specialize (H d).
+  - intro Hd. rewrite Hd in H. cbn in H. lia.
+  - destruct (mget (q_decl q) d); cbn; [apply Z.leb_le; auto|reflexivity].
+Qed.
+
+Lemma np_ok_spec q mreq : np_ok q mreq = true <-> np_within q mreq.
+Proof.
+  unfold np_ok, np_within. rewrite all_dims_spec.
+  split; intros H d; specialize (H d).
+  - intro Hd. rewrite Hd in H. cbn in H. lia.
+  - destruct (mget (q_mindecl q) d); cbn; [apply Z.leb_le; auto|reflexivity].
+Qed.
+
+Lemma anc_ok_spec a lim mreq : anc_ok a lim mreq = true <-> anc_within a lim mreq.
+Proof.
+  unfold anc_ok, anc_within. rewrite all_dims_spec.
+  split; intros H d; specialize (H d).
+  - intros Hd Hp. rewrite Hd in H. cbn in H.
+    destruct (0 <? vget mreq d) eqn:E; [cbn in H; lia|lia].
+  - destruct (mget (q_decl a) d); cbn; [|reflexivity].
+    destruct (0 <? vget mreq d) eqn:E; cbn; [|reflexivity].
+    apply Z.leb_le. apply H; [reflexivity|lia].
+Qed.
+
+Lemma admissibleb_spec chk p q anc lim :
+  admissibleb chk p q anc lim = true <-> admissible chk p q anc lim.
+Proof.
+  unfold admissibleb, admissible. cbv zeta.
+  rewrite !andb_true_iff, self_ok_spec. split.
+  - intros [[Hs Hn] Ha]. split; [exact Hs|]. split.
+    + intro Hp. rewrite Hp in Hn. cbn in Hn. apply np_ok_spec. exact Hn.
+    + intro Hc. rewrite Hc in Ha. cbn in Ha. rewrite forallb_forall in Ha.
+      apply Forall_forall. intros a Hin. apply anc_ok_spec. exact (Ha a Hin).
+  - intros (Hs & Hn & Ha). split; [split; [exact Hs|]|].
+    + destruct (p_np p); cbn [negb orb]; [|reflexivity].
+      apply np_ok_spec. apply Hn. reflexivity.
+    + destruct chk; cbn [negb orb]; [|reflexivity]. apply forallb_forall. intros a Hin.
+      apply anc_ok_spec. specialize (Ha eq_refl). rewrite Forall_forall in Ha. exact (Ha a Hin).
+Qed.
+
+Lemma admission_spec cfg st p q anc :
+  admission cfg st p (q :: anc)
+  = if admissibleb (chk_parent cfg) p q anc (limit_of cfg st) then 0 else 1.
+Proof.
+  unfold admission, admissibleb. cbv zeta.
+  destruct (self_ok q (limit_of cfg st q) (vmask (q_decl q) (p_req p))); cbn [negb andb orb]; [|reflexivity].
+  destruct (p_np p); cbn [negb andb orb].
+  - destruct (np_ok q (vmask (q_decl q) (p_req p))); cbn [negb andb orb]; [|reflexivity].
+    destruct (chk_parent cfg); cbn [negb andb orb]; [|reflexivity].
+    destruct (forallb _ anc); reflexivity.
+  - destruct (chk_parent cfg); cbn [negb andb orb]; [|reflexivity].
+    destruct (forallb _ anc); reflexivity.
+Qed.
+
+Lemma admission_sound cfg st p q anc :
+  admission cfg st p (q :: anc) = 0 -> admissible (chk_parent cfg) p q anc (limit_of cfg st).
+Proof.
+  rewrite admission_spec.
+  destruct (admissibleb _ p q anc _) eqn:E; [intros _; apply admissibleb_spec; exact E|discriminate].
+Qed.
+
+Lemma admission_complete cfg st p q anc :
+  admission cfg st p (q :: anc) = 1 -> ~ admissible (chk_parent cfg) p q anc (limit_of cfg st).
+Proof.
+  rewrite admission_spec.
+  destruct (admissibleb _ p q anc _) eqn:E; [discriminate|].
+  intros _ H. apply admissibleb_spec in H. congruence.
+Qed.
+
+Lemma admission_total cfg st p q anc :
+  admission cfg st p (q :: anc) = 0 \/ admission cfg st p (q :: anc) = 1.
+Proof. rewrite admission_spec. destruct (admissibleb _ _ _ _ _); auto. Qed.
+
+(* a rejection names the limit that would be passed *)
+Definition exceeds_self (q : quota) (lim mreq : vec) : Prop :=
+  exists d, mget (q_decl q) d = true /\ vget lim d < vget (q_used q) d + vget mreq d.
+Definition exceeds_np (q : quota) (mreq : vec) : Prop :=
+  exists d, mget (q_mindecl q) d = true /\ vget (q_min q) d < vget (q_npused q) d + vget mreq d.
+Definition exceeds_anc (a : quota) (lim mreq : vec) : Prop :=
+  exists d, mget (q_decl a) d = true /\ 0 < vget mreq d
+            /\ vget lim d < vget (q_used a) d + vget mreq d.
+
+Lemma self_ok_false q lim mreq : self_ok q lim mreq = false -> exceeds_self q lim mreq.
+Proof.
+  unfold self_ok. intro H. apply all_dims_false in H. destruct H as [d Hd].
+  exists d. destruct (mget (q_decl q) d); cbn in Hd; [|discriminate].
+  split; [reflexivity|lia].
+Qed.
+Lemma np_ok_false q mreq : np_ok q mreq = false -> exceeds_np q mreq.
+Proof.
+  unfold np_ok. intro H. apply all_dims_false in H. destruct H as [d Hd].
+  exists d. destruct (mget (q_mindecl q) d); cbn in Hd; [|discriminate].
+  split; [reflexivity|lia].
+Qed.
+Lemma anc_ok_false a lim mreq : anc_ok a lim mreq = false -> exceeds_anc a lim mreq.
+Proof.
+  unfold anc_ok. intro H. apply all_dims_false in H. destruct H as [d Hd].
+  exists d. destruct (mget (q_decl a) d); cbn in Hd; [|discriminate].
+  destruct (0 <? vget mreq d) eqn:E; cbn in Hd; [|discriminate].
+  repeat split; lia.
+Qed.
+
+Lemma admission_reject_witness cfg st p q anc :
+  admission cfg st p (q :: anc) = 1 ->
+  let mreq := vmask (q_decl q) (p_req p) in
+  exceeds_self q (limit_of cfg st q) mreq
+  \/ (p_np p = true /\ exceeds_np q mreq)
+  \/ (chk_parent cfg = true /\ exists a, In a anc /\ exceeds_anc a (limit_of cfg st a) mreq).
+Proof.
+  unfold admission. cbv zeta.
+  destruct (self_ok q (limit_of cfg st q) (vmask (q_decl q) (p_req p))) eqn:Es; cbn [negb andb orb].
+  2:{ intros _. left. apply self_ok_false. exact Es. }
+  destruct (p_np p) eqn:En; cbn [negb andb orb].
+  - destruct (np_ok q (vmask (q_decl q) (p_req p))) eqn:Ep; cbn [negb andb orb].
+    2:{ intros _. right. left. split; [reflexivity|apply np_ok_false; exact Ep]. }
+    destruct (chk_parent cfg) eqn:Ec; cbn [negb andb orb]; [|discriminate].
+    destruct (forallb _ anc) eqn:Ef; cbn [negb andb orb]; [discriminate|].
+    intros _. right. right. split; [reflexivity|].
+    apply forallb_false_exists in Ef. destruct Ef as (a & Ha & Hf).
+    exists a. split; [exact Ha|apply anc_ok_false; exact Hf].
+  - destruct (chk_parent cfg) eqn:Ec; cbn [negb andb orb]; [|discriminate].
+    destruct (forallb _ anc) eqn:Ef; cbn [negb andb orb]; [discriminate|].
+    intros _. right. right. split; [reflexivity|].
+    apply forallb_false_exists in Ef. destruct Ef as (a & Ha & Hf).
+    exists a. split; [exact Ha|apply anc_ok_false; exact Hf].
 Qed.
